@@ -2,7 +2,8 @@
 
 case = {"kind": str, "variant": "matcher" | "mtg", "g1": graph, "g2": graph, "mcs": bool,
         "node_attrs": [str, ...], "node_defaults": [value, ...], "edge_attrs": [str, ...],
-        "prune_wc": bool, "prune_auto": bool}
+        "prune_wc": bool, "prune_auto": bool,
+        "implicit": bool (optional: constructor arguments equal to the documented defaults are omitted, see _ctor_args)}
 graph = {"nodes": [[id, {attr: value}], ...], "edges": [[u, v, {attr: value}], ...]}   (harness/gen/graphs.py)
 
 Observable ("matcher" = synkit/Graph/Matcher/mcs_matcher.py, "mtg" = synkit/Graph/MTG/mcs_matcher.py):
@@ -31,7 +32,9 @@ EXHAUSTIVE = {"quick": True, "thorough": False}
 EXPLANATION = ("quick: ALL ordered pairs of isomorphism-class representatives on <= 3 nodes over the alphabet {C,O} x bond "
                "{absent,1,2} (67 x 67 pairs) in maximum mode and the pairs on <= 2 nodes in all-sizes mode are enumerated completely "
                "(that finite sub-space is exhaustive); plus seeded random pairs up to 6x7 nodes with planted common parts, relabelled "
-               "copies, disconnected graphs, first-graph-larger pairs, wildcard pruning, two-attribute labels, missing attributes. "
+               "copies, disconnected graphs, first-graph-larger pairs, wildcard pruning, two-attribute labels, missing attributes "
+               "(MTG copy: bond order missing on one side only), low-overlap pairs on >= 4 nodes whose common part has 1-2 atoms, "
+               "copies with default-valued labels spelled differently (absent / written out), constructor defaults taken by omission. "
                "thorough: the same plus a seeded sample of ordered pairs on <= 4 nodes (772 classes) and 10x random.")
 TRUSTED_BASE = [
     "Coq 8.16.1 kernel + vm_compute (no native_compute)",
